@@ -54,6 +54,7 @@ pub struct Ctx {
     pub progress: Arc<AtomicU64>,
     pub current: Arc<Mutex<String>>,
     pub only: Option<String>,
+    pub dump: Option<String>,
 }
 
 impl Ctx {
@@ -166,7 +167,7 @@ pub fn hash_case(gi: &GInfo, rule: usize, input: &str, extra: u64) -> u64 {
 
 pub fn replay_ctx(prop: &str) -> Ctx {
     let prop: &'static str = Box::leak(prop.to_string().into_boxed_str());
-    Ctx { prop, tier: Tier::Quick, seed: 0, ev: Evidence::new(prop, Tier::Quick, 0, "replay"), findings: load_findings(), progress: Arc::new(AtomicU64::new(0)), current: Arc::new(Mutex::new(String::new())), only: None }
+    Ctx { prop, tier: Tier::Quick, seed: 0, ev: Evidence::new(prop, Tier::Quick, 0, "replay"), findings: load_findings(), progress: Arc::new(AtomicU64::new(0)), current: Arc::new(Mutex::new(String::new())), only: None, dump: None }
 }
 
 pub struct World {
@@ -249,7 +250,7 @@ fn run(cmd: &str, args: &Args, gs: Vec<&'static dyn GrammarUnderTest>) -> i32 {
     let progress = Arc::new(AtomicU64::new(0));
     let current = Arc::new(Mutex::new(String::new()));
     watchdog(progress.clone(), current.clone(), prop);
-    let mut ctx = Ctx { prop, tier, seed, ev: Evidence::new(prop, tier, seed, ""), findings: load_findings(), progress, current, only };
+    let mut ctx = Ctx { prop, tier, seed, ev: Evidence::new(prop, tier, seed, ""), findings: load_findings(), progress, current, only, dump: args.get("dump").map(String::from) };
     let res = crate::props::run_property(&world, &mut ctx);
     match res {
         Some(v) => {
